@@ -55,7 +55,7 @@ def run(idx: Index, rep: Report, tier: str):
     check_vsqs_update_equals_rebuild(idx, rep)
     check_adapt_grow_equals_restart(idx, rep)
     check_term_order_histories(idx, rep, tier)
-    check_class_update_histories(idx, rep)
+    check_class_update_histories(idx, rep, tier)
 
 
 # ---------------------------------------------------------------------------------------------------
@@ -637,7 +637,7 @@ def check_vsqs_update_equals_rebuild(idx: Index, rep: Report):
 CLASS_FOLDS = ("pUCCD", "HEA", "RUCC", "VariationalCircuitAnsatz")
 
 
-def check_class_update_histories(idx: Index, rep: Report):
+def check_class_update_histories(idx: Index, rep: Report, tier: str = "quick"):
     """The ansaetze whose circuit is a fixed template (pUCCD, HEA, RUCC, a user circuit) are folded as classes - constructor, set_var_params,
     build_circuit, update_var_params, with Circuit replaced by a gate-list stand-in -: after build(v0), update(v1), update(v2) the circuit must
     equal, gate by gate, the one a fresh object builds from v2; a fresh build must equal build-then-update with the same vector; vectors one
@@ -701,6 +701,23 @@ def check_class_update_histories(idx: Index, rep: Report):
                 rep.decide(same(sig(a), sig(b)), rule, upd, upd.node, text=label,
                            what="after any sequence of updates the circuit equals, gate by gate, the circuit a fresh object builds from the last vector",
                            reason=f"updated circuit differs from a rebuilt one at {diff}")
+            # every advertised parameter is live: changing one entry of the vector changes the circuit (through build and through update)
+            ks = sorted({0, npar // 2, npar - 1}) if tier == "quick" else list(range(npar))
+            dead = []
+            for k in ks:
+                vk = list(v0)
+                vk[k] += 0.37
+                a, b, c2 = make(), make(), make()
+                call(a, "build_circuit", list(v0))
+                call(b, "build_circuit", list(vk))
+                call(c2, "build_circuit", list(v0))
+                call(c2, "update_var_params", list(vk))
+                if same(sig(a), sig(b)) or same(sig(a), sig(c2)):
+                    dead.append(k)
+            n += 1
+            rep.decide(not dead, "K8.live-parameters", upd, upd.node, text=f"{cname}({conf}): each of the {npar} advertised parameters changes the circuit (positions {ks})",
+                       what="the number of parameters accepted is the number the circuit depends on: changing any one entry changes some gate, through build and through update",
+                       reason=f"parameter(s) {dead} have no effect on the circuit")
             # wrong lengths
             for meth in ("update_var_params", "build_circuit"):
                 for bad in (v0[:-1], v0 + [0.3]) if npar > 0 else ():
